@@ -258,7 +258,7 @@ impl SendRateComp {
                         // Continue slow start doubling, see section 4.3, step 5
                         if now_ms - time_last_doubled_ms >= rtt_ms {
                             state.time_last_doubled_ms = Some(now_ms);
-                            self.send_rate = (2*self.send_rate).min(recv_limit).max(initial_rate);
+                            self.send_rate = self.send_rate.saturating_mul(2).min(recv_limit).max(initial_rate);
                             //println!("SS: doubling: new send rate: {} (limit {}, rl: {}, li: {})",
                             //    self.send_rate, recv_limit, rate_limited, loss_increase);
                         }
@@ -285,7 +285,7 @@ impl SendRateComp {
         self.send_rate = self.send_rate.min(self.max_send_rate);
 
         // Restart nofeedback timer
-        self.nofeedback_exp_ms = Some(now_ms + s_to_ms(rto_s));
+        self.nofeedback_exp_ms = Some(now_ms.saturating_add(s_to_ms(rto_s)));
         self.nofeedback_idle = true;
     }
 
@@ -328,7 +328,7 @@ impl SendRateComp {
                     // Recomputing this term on the fly allows for some adaptation as RTT fluctuates
                     let recover_rate = compute_initial_send_rate(rtt_s);
 
-                    if self.nofeedback_idle && self.send_rate < 2*recover_rate {
+                    if self.nofeedback_idle && self.send_rate < recover_rate.saturating_mul(2) {
                         // Do nothing, this is acceptable
                     } else {
                         // Halve send rate every RTO, subject to minimum
@@ -366,7 +366,7 @@ impl SendRateComp {
         // This may or may not be the intended behavior.
         let rto_s = self.update_rto(self.rtt_s.unwrap_or(0.0), self.send_rate);
 
-        self.nofeedback_exp_ms = Some(now_ms + s_to_ms(rto_s));
+        self.nofeedback_exp_ms = Some(now_ms.saturating_add(s_to_ms(rto_s)));
         self.nofeedback_idle = true;
     }
 
